@@ -23,6 +23,8 @@ def _record(res: UnitResult, pid: str, name: str, params: Any, c: D.Ctl, mode: s
     res.count("preemptive_switches", c.preemptions)
     res.count("context_switches", c.switches)
     res.count("clock_advances", c.clock_advances)
+    if c.stalls:
+        res.count("virtual_stalls", c.stalls)
     for site, n in c.switch_sites.items():
         res.note("preemption_sites", "%s:%s" % site if isinstance(site, tuple) else str(site))
     replay = {"scenario": name, "params": params, "decisions": list(c.decisions), "dsched": True}
@@ -60,7 +62,7 @@ def _record(res: UnitResult, pid: str, name: str, params: Any, c: D.Ctl, mode: s
 
 def explore(res: UnitResult, pid: str, name: str, fn: Callable[[D.Ctl, Any], Any], params: Any, mode: str, *, seed: Any = 0, runs: int = 100,
             bound: int = 2, max_runs: int = 20000, on_failed: str = "inconclusive", p_choices: tuple = (0.05, 0.15, 0.3),
-            hot: tuple = ()) -> None:
+            hot: tuple = (), stall_files: tuple = (), stall_durations: tuple = (0.05, 0.15)) -> None:
     def scen(c: D.Ctl) -> Any:
         return fn(c, params)
 
@@ -76,16 +78,21 @@ def explore(res: UnitResult, pid: str, name: str, fn: Callable[[D.Ctl, Any], Any
             res.inconclusive.append("%s: %d replay mismatches (hidden nondeterminism)" % (name, st["mismatches"]))
         return
     est = 60
+    est_stall = 40
     for i in range(runs):
         rng = random.Random("%s|%s|%s|%s|%d" % (seed, pid, name, show(params), i))
         if mode == "pct":
             st = D.PCTStrategy(rng, rng.choice((2, 3, 4)), est)
+        elif mode == "stall":
+            st = D.StallStrategy(rng, rng.choice((0.02, 0.1)), stall_files, stall_durations, est=est_stall)
         elif mode == "hot":
             st = D.HotspotStrategy(rng, rng.choice((0.02, 0.05, 0.1)), hot, rng.choice((0.5, 0.8, 1.0)))
         else:
             st = D.RandomStrategy(rng, rng.choice(p_choices))
         c = D.run(scen, st)
         est = max(est, len(c.decisions))
+        if mode == "stall":
+            est_stall = max(est_stall, st.n)
         _record(res, pid, name, params, c, mode, on_failed)
 
 
